@@ -61,6 +61,7 @@ def generate(seed, run, tier):
         ops.append({'op': 'train_step', 'which': 'both', 'lam': 1e-3, 'lr': 0.05, 'cost': True})
     if rf.chance(0.25):
         ops.insert(rf.randint(0, len(ops)), {'op': 'crash_restart', 'stale_example': rf.chance(0.3)})
+    ops = sched.add_bystanders(cfg, ops, Stream(seed, ID, run, 'bystanders'), p=0.12)
     return {'cfg': cfg, 'ops': ops, 'run_seed': mix(seed, ID, run, 'run')}
 
 
